@@ -149,6 +149,9 @@ def lookup_namespace(prog: Program, modname: str) -> Dict[str, FuncInfo]:
     mi = prog.modules.get(modname)
     if mi is None:
         raise AnalysisError(f"lookup module {modname} not found")
+    from .symeval import module_binds
+    if module_binds(prog, modname, '__probe__') is None:
+        raise AnalysisError(f"the namespace of {modname} is built dynamically (star import / globals() / vars()): which names it binds is not decided statically")
     out: Dict[str, FuncInfo] = dict(mi.functions)
     for local, (mod, attr) in mi.imports.items():
         if attr is None:
